@@ -31,11 +31,22 @@ func init() {
 			{Dir: "root", Name: "ZZ_C01_pubkey", Variant: "mainnet,16 symbolic coordinate bits", Tiers: "thorough", Reach: []string{"end"}, Tweak: chain(ecStubs(true), params(true, "symbytes", 2))},
 		},
 	})
+	realB58 := func(kv ...interface{}) func(c *sym.HarnessCfg, tier string) {
+		return func(c *sym.HarnessCfg, tier string) {
+			c.RealBase58 = true
+			for i := 0; i+1 < len(kv); i += 2 {
+				c.Params[kv[i].(string)] = kv[i+1].(int)
+			}
+		}
+	}
 	reg(&PropSpec{
 		ID: "C02",
 		Harnesses: []HarnessSpec{
 			{Dir: "root", Name: "ZZ_C02_cash", Reach: []string{"accepted", "rejected"}, Tweak: params(true)},
 			{Dir: "root", Name: "ZZ_C02_prefix", Reach: []string{"in"}, Tweak: params(true)},
+			// discharges the assumption "a string with a foreign character Base58-decodes to nothing" that the
+			// abstract Base58 boundary of this property's other harnesses relies on (real Decode/CheckDecode)
+			{Dir: "base58", Name: "ZZ_C07_b58_foreign", Variant: "bytes<=3", Reach: []string{"end"}, Tweak: realB58("maxchars", 3)},
 		},
 	})
 	reg(&PropSpec{
@@ -285,6 +296,9 @@ func init() {
 		Harnesses: []HarnessSpec{
 			{Dir: "hdkeychain", Name: "ZZ_C05_roundtrip", Reach: []string{"end"}, Tweak: hdStubs()},
 			{Dir: "hdkeychain", Name: "ZZ_C05_strict", Reach: []string{"parsed", "accepted", "rejected"}, Tweak: hdStubs()},
+			// discharges the assumption "a string with a foreign character Base58-decodes to nothing" that the
+			// abstract Base58 boundary of this property's other harnesses relies on (real Decode/CheckDecode)
+			{Dir: "base58", Name: "ZZ_C07_b58_foreign", Variant: "bytes<=3", Reach: []string{"end"}, Tweak: realB58("maxchars", 3)},
 		},
 	})
 	reg(&PropSpec{
@@ -298,6 +312,9 @@ func init() {
 		Harnesses: []HarnessSpec{
 			{Dir: "root", Name: "ZZ_C06_roundtrip", Reach: []string{"end"}, Tweak: hdStubs()},
 			{Dir: "root", Name: "ZZ_C06_strict", Reach: []string{"parsed", "accepted", "rejected"}, Tweak: hdStubs()},
+			// discharges the assumption "a string with a foreign character Base58-decodes to nothing" that the
+			// abstract Base58 boundary of this property's other harnesses relies on (real Decode/CheckDecode)
+			{Dir: "base58", Name: "ZZ_C07_b58_foreign", Variant: "bytes<=3", Reach: []string{"end"}, Tweak: realB58("maxchars", 3)},
 		},
 	})
 	b58Stubs := func(kv ...interface{}) func(c *sym.HarnessCfg, tier string) {
@@ -343,14 +360,6 @@ func init() {
 			{Dir: "jsonpb", Name: "ZZ_C08_convert", Variant: "depth2,width2", Tiers: "thorough", Reach: []string{"in", "end"}, Tweak: chain(jsonStubs, c08(0, "depth", 2, "width", 2))},
 		},
 	})
-	realB58 := func(kv ...interface{}) func(c *sym.HarnessCfg, tier string) {
-		return func(c *sym.HarnessCfg, tier string) {
-			c.RealBase58 = true
-			for i := 0; i+1 < len(kv); i += 2 {
-				c.Params[kv[i].(string)] = kv[i+1].(int)
-			}
-		}
-	}
 	reg(&PropSpec{
 		ID: "C07",
 		Harnesses: []HarnessSpec{
